@@ -1,4 +1,5 @@
-import LokyModel.Lemmas.ExecInv
+import LokyModel.Lemmas.ExecSticky
+import LokyModel.Lemmas.ExecFut
 /-!
 # C02 — abrupt worker death is detected and fails the pool loudly (executor protocol part)
 
@@ -53,43 +54,6 @@ theorem C02_flag_as_broken (s s' : St) (b : Broken) (hpc : s.mpc = .brkAcq b)
   · cases hs; simp
   · cases hs
 
-/-- every listed future that is not cancelled ends in state `f`; cancelled ones are left alone
-    (the `InvalidStateError` of `set_exception` is ignored) -/
-theorem failList_spec (f : Fut) (hf : f ≠ .cancelled) (ws : List Wid) (fs : List Fut) (i : Wid) :
-    (ws.foldl (fun fs w => if (fs.getD w .pending == .cancelled) = true then fs else fs.set w f) fs)[i]?.getD .pending =
-      if i ∈ ws ∧ i < fs.length ∧ fs[i]?.getD .pending ≠ .cancelled then f else fs[i]?.getD .pending := by
-  induction ws generalizing fs with
-  | nil => simp
-  | cons w ws ih =>
-    simp only [List.foldl_cons]
-    rw [ih]
-    by_cases hc : fs[w]?.getD .pending = .cancelled
-    · have h1 : (fs.getD w .pending == .cancelled) = true := by simp [List.getD_eq_getElem?_getD, hc]
-      simp only [h1, if_true, List.mem_cons]
-      by_cases hiw : i = w
-      · subst hiw; simp [hc]
-      · simp [hiw]
-    · have h1 : (fs.getD w .pending == .cancelled) = false := by simpa [List.getD_eq_getElem?_getD] using hc
-      simp only [h1, Bool.false_eq_true, if_false, List.mem_cons, List.length_set]
-      by_cases hiw : i = w
-      · subst hiw
-        by_cases hlt : i < fs.length
-        · have h2 : (fs.set i f)[i]?.getD .pending = f := by simp [hlt]
-          have hc' : fs[i] ≠ .cancelled := by simpa [hlt] using hc
-          rw [h2]; simp [hf, hlt, hc']
-        · have h2 : (fs.set i f)[i]? = fs[i]? := by
-            rw [List.getElem?_set]; simp [hlt]
-          rw [h2]; simp [hlt]
-      · have h2 : (fs.set w f)[i]? = fs[i]? := by
-          rw [List.getElem?_set]; simp [Ne.symm hiw]
-        rw [h2]; simp [hiw]
-theorem failAll_spec (s : St) (ws : List Wid) (f : Fut) (hf : f ≠ .cancelled) (i : Wid) :
-    (failAll s ws f).futs.getD i .pending =
-      if i ∈ ws ∧ i < s.futs.length ∧ s.futs.getD i .pending ≠ .cancelled then f else s.futs.getD i .pending := by
-  unfold failAll
-  simp only [List.getD_eq_getElem?_getD]
-  exact failList_spec f hf ws s.futs i
-
 /-- `terminate_broken`, failing the futures: the step after the flag fails every pending future with
     the pool's error, clears `pending`, and enters `kill_workers()`. -/
 theorem C02_brkRel_step (s : St) (b : Broken) (hpc : s.mpc = .brkRel b) :
@@ -123,6 +87,24 @@ theorem C02_submit_after_broken_raises (s s' : St) (k : Nat) (t : Tid) (b : Brok
   split at hs
   · cases hs; simp [hb, setU]
   · cases hs
+
+/-- Broken is for ever: along *every* schedule (any actors, time-outs, failed try-locks, further crashes) from a
+    state in which the pool is flagged broken, it is still flagged broken … -/
+theorem C02_broken_is_sticky (s s' : St) (sched : List (Actor × Variant)) (hr : run s sched = some s')
+    (hb : s.broken.isSome = true) : s'.broken.isSome = true :=
+  (sticky_run sched s s' hr).1 hb
+
+/-- … hence every later `submit`, whenever it happens, raises and creates no future. -/
+theorem C02_every_later_submit_raises (s s' s'' : St) (sched : List (Actor × Variant)) (k : Nat) (t : Tid)
+    (hb : s.broken.isSome = true) (hr : run s sched = some s') (hpc : s'.upc k = .subAcqShut t)
+    (hs : stepU s' k .ok = some s'') :
+    s''.upc k = .subRelShut ∧ s''.futs = s'.futs ∧ s''.pending = s'.pending ∧ s''.workIds = s'.workIds := by
+  have hb' := C02_broken_is_sticky s s' sched hr hb
+  cases hbb : s'.broken with
+  | none => simp [hbb] at hb'
+  | some b =>
+    have := C02_submit_after_broken_raises s' s'' k t b hpc hbb hs
+    exact ⟨this.1, this.2.1, this.2.2.1, this.2.2.2.1⟩
 
 /-- `kill_workers()`: the manager's kill loop needs no step of any other actor — `kill(p)` is always
     enabled and the `join` that follows is enabled because `p` is dead by then. -/
